@@ -261,7 +261,7 @@ def arbitrary(rep, dec, lk):
             if num == '>6':
                 dom.lin_lb['n'] = 7
                 nv = Lin.sym('n', 64)
-                cap = 6
+                cap = 7      # the smallest num in this class
             else:
                 nv = BV.const(num, 64)
                 cap = num
@@ -287,6 +287,8 @@ def arbitrary(rep, dec, lk):
                     continue
             if rv > cap:
                 probs.append('reports %d bytes with only %s available' % (rv, num))
+            if rv > 6:
+                probs.append('accepts a %d-byte sequence; the UTF-8 table has at most 6' % rv)
             if rv >= 2:
                 nacc += 1
                 for k in range(1, rv):
